@@ -421,6 +421,14 @@ def pretty(x):
 def finish(ctx, level, coverage, assumptions, failures, replay_family=None):
     """failures: list of {"rec": trace record, "failed": [conjuncts], "family": fam}.
     Classifies against KNOWN_FINDINGS.txt, writes evidence, prints verdict lines, returns exit code."""
+    if getattr(ctx, "selftest", False):
+        want = sorted(getattr(ctx, "corrupted", []))
+        got = sorted({(fl.get("family"), fl["rec"]["id"]) for fl in failures})
+        if want and got == want:
+            log("SELFTEST ok property=%s: the judge reported exactly the %d corrupted line(s) %s" % (ctx.prop, len(want), want))
+            return 0
+        log("SELFTEST FAILED property=%s: corrupted %s but the judge reported %s" % (ctx.prop, want, got[:10]))
+        return 3
     findings = load_findings()
     known = {}
     unknown = []
